@@ -16,6 +16,7 @@ Messages marked for deletion via DELE are only expunged on a clean QUIT.
 import asyncio
 import logging
 import re
+from bisect import bisect_left
 from typing import TYPE_CHECKING, Any
 
 # Project imports
@@ -331,9 +332,17 @@ class POP3CommandHandler:
         """
         assert self.mbox is not None
         uid = self.snapshot_uids[pop3_num - 1]
+        uids = self.mbox.uids
         idx = self.mbox._uid_to_idx.get(uid)
-        if idx is None or self.mbox.uids[idx] != uid:
-            raise KeyError(f"message with uid {uid} is gone")
+        if idx is None or idx >= len(uids) or uids[idx] != uid:
+            # The reverse index is only rebuilt at the end of an expunge.
+            # While another session's expunge is running it is stale: look
+            # the uid up in the (sorted) list itself before giving up on a
+            # message that is still there.
+            #
+            idx = bisect_left(uids, uid)
+            if idx >= len(uids) or uids[idx] != uid:
+                raise KeyError(f"message with uid {uid} is gone")
         return self.mbox.msg_keys[idx]
 
     ##################################################################
